@@ -466,7 +466,9 @@ fn slice(array: &[Rcvar], start: Option<i32>, stop: Option<i32>, step: i32) -> V
         _ if step < 0 => -1,
         _ => len,
     };
-    let mut i = a;
+    // Walk the indices in 64 bits: `i + step` can leave the i32 range.
+    let (b, step) = (i64::from(b), i64::from(step));
+    let mut i = i64::from(a);
     if step > 0 {
         while i < b {
             result.push(array[i as usize].clone());
